@@ -18,6 +18,10 @@ def units():
     us.append(op_unit("and", 2, 2, False, th, 1800))
     for n in (0, 1, 2):
         us.append(not_unit(n, False, both))
+    for n in (0, 1, 2, 3):
+        us.append(Unit("bmoc_nico_%d" % n, P + "bmoc_nico_%d" % n, ["BMOC::not_in_cell_4_or", "consume_while_overlapped_and_partial", "dd_4_go_up", "is_in"] + STUBS,
+                       "contract of not_in_cell_4_or: partial coarse cell, first full cell inside, %d further entries (any depth/flag, inside or after): fills the coarse cell exactly, pointwise maximum inside, nothing outside, returns the first cell after it" % n,
+                       tiers=both if n <= 2 else th, timeout=900, mem_gb=8, level="B", bound="%d further entries, depth_max <= 3" % n))
     us.append(not_unit(3, False, th, 1800))
     us.append(not_unit(1, True, th, 1800))
     return us
